@@ -813,3 +813,33 @@ UNDECIDED += [
     ('u13-pad-resub-run', ['C13'], [(A, _LEX_PAD, "    contents = re.sub(r'([()]+)', r' \\1 ', contents)")]),
     ('u13-literal-table-mislabel', ['C13'], [(A, _LEX_LITERALS, _lex_table('RE_ERROR'))]),
 ]
+
+
+# ---- C13 R13.7: is_int as a regular expression, decided as language equality with int(text, 0) (bbverif/intlang.py) ----
+_IS_INT = "def is_int(value):\n    try:\n        int(value, base=0)\n        return True\n    except:\n        return False\n"
+_INT_EXACT = "[+-]?(?:0[xX](?:_?[0-9a-fA-F])+|0[bB](?:_?[01])+|0[oO](?:_?[0-7])+|[1-9](?:_?[0-9])*|0(?:_?0)*)"
+
+
+def _is_int_regex(pattern, how='fullmatch', flags=''):
+    return ("RE_INT = re.compile(r'" + pattern + "'" + flags + ")\n\n\ndef is_int(value):\n    return RE_INT." + how + "(value) is not None\n")
+
+
+BREAKING += [
+    ('c13-isint-regex-lowercase', ['C13'], [(A, _IS_INT, _is_int_regex('[+-]?(0x[0-9a-f]+|0b[01]+|0o[0-7]+|[0-9]+)$', 'match'))]),
+    # right on every sample spelling one would think of, wrong on `0_`-style and leading-zero texts: only the language comparison sees it
+    ('c13-isint-regex-leading-zero', ['C13'], [(A, _IS_INT, _is_int_regex('[+-]?(?:0[xX](?:_?[0-9a-fA-F])+|0[bB](?:_?[01])+|0[oO](?:_?[0-7])+|[0-9](?:_?[0-9])*)'))]),
+    ('c13-isint-regex-unanchored', ['C13'], [(A, _IS_INT, _is_int_regex(_INT_EXACT, 'match'))]),
+    ('c13-isint-regex-double-underscore', ['C13'], [(A, _IS_INT, _is_int_regex('[+-]?(?:0[xX][0-9a-fA-F_]+|0[bB][01_]+|0[oO][0-7_]+|[1-9][0-9_]*|0[0_]*)'))]),
+]
+
+PRESERVING += [
+    ('p13-isint-regex-exact', ['C13'], [(A, _IS_INT, _is_int_regex(_INT_EXACT))]),
+    ('p13-isint-regex-match-Z', ['C13'], [(A, _IS_INT, _is_int_regex(_INT_EXACT + '\\Z', 'match'))]),
+    ('p13-isint-regex-ignorecase', ['C13'], [(A, _IS_INT, _is_int_regex('[+-]?(?:0x(?:_?[0-9a-f])+|0b(?:_?[01])+|0o(?:_?[0-7])+|[1-9](?:_?[0-9])*|0(?:_?0)*)', 'fullmatch', ', re.IGNORECASE'))]),
+    ('p13-isint-regex-search-anchored', ['C13'], [(A, _IS_INT, _is_int_regex('^' + _INT_EXACT + '\\Z', 'search'))]),
+]
+
+UNDECIDED += [
+    # a look-ahead is outside the regular subset that is translated: agreement on the sample spellings is no proof
+    ('u13-isint-regex-lookahead', ['C13'], [(A, _IS_INT, _is_int_regex('(?=.)' + _INT_EXACT))]),
+]
